@@ -4040,7 +4040,8 @@ fn oracle_c06(fields: &[&str]) -> String {
                 let g = e.geographic(&c);
                 // single step closed form: 1 cm
                 let d = ground_distance("geo3", &Coor4D([p[0], p[1], p[2], 0.]), &g) * (a / 6378137.0).min(1.0);
-                let polar = p[1].abs() > 1.5707;
+                // (a pole is the pole itself; a point millimetres from it is a point with a longitude)
+                let polar = (p[1].abs() - std::f64::consts::FRAC_PI_2).abs() < 1e-14;
                 if (!(d < 1e-2) && !polar) || (polar && !((g[1] - p[1]).abs() < 1e-9 && (g[2] - p[2]).abs() < 1e-2)) {
                     return format!("oracle FAIL {}: ({}, {}, {}) -> cartesian -> geographic comes back {:.3e} m away", fields[1], p[0], p[1], p[2], d);
                 }
